@@ -232,6 +232,8 @@ func wrapExt(a *refmodel.Claims, p1 *psatoken.P1Claims, p2 *psatoken.P2Claims) (
 		return &ExtP1Claims{P1Claims: *p1}, nil
 	case ExtStrictName:
 		return &ExtStrictClaims{P2Claims: *p2}, nil
+	case ExtWideName:
+		return &ExtWideClaims{P2Claims: *p2}, nil
 	}
 	if p1 != nil {
 		return p1, nil
